@@ -226,11 +226,64 @@ class EffectDomain(DefaultDomain):
                 return ("concat",) + tuple(parts)
         return TOP
 
+    def _same_element(self, a, b):
+        """True / False when two abstract values are known to be equal / different as set elements, else None."""
+        if a == TOP or b == TOP:
+            return None
+        if a == b:
+            return True
+        oka, ka = self._dkey(a)
+        okb, kb = self._dkey(b)
+        if oka and okb:
+            return ka == kb
+        return None
+
+    def _set_member(self, x, expr, depth=0):
+        """Is x a member of the set the expression builds?  True / False / None (not decided)."""
+        if not isinstance(expr, tuple) or not expr or depth > 12:
+            return None
+        tag = expr[0]
+        if tag == "empty":
+            return False
+        if tag in ("with", "without") and len(expr) == 3:
+            same = self._same_element(x, expr[2])
+            if same is True:
+                return tag == "with"
+            if same is False:
+                return self._set_member(x, expr[1], depth + 1)
+            return None
+        if tag == "copy" and len(expr) == 2:
+            v = expr[1]
+            if isinstance(v, tuple) and v[:1] == ("set",) and len(v) == 2:
+                return self._set_member(x, v[1], depth + 1)
+            if isinstance(v, tuple) and v[:1] == ("tuple",):
+                verdicts = [self._same_element(x, el) for el in v[1:]]
+                if True in verdicts:
+                    return True
+                return False if all(v_ is False for v_ in verdicts) else None
+            return None
+        if tag in ("union", "minus", "meet") and len(expr) == 3:
+            def side(e_):
+                if isinstance(e_, tuple) and e_[:1] == ("set",) and len(e_) == 2:
+                    e_ = e_[1]
+                return self._set_member(x, e_, depth + 1)
+            a, b = side(expr[1]), side(expr[2])
+            if tag == "union":
+                return True if True in (a, b) else False if (a is False and b is False) else None
+            if tag == "minus":
+                return False if (a is False or b is True) else True if (a is True and b is False) else None
+            return True if (a is True and b is True) else False if False in (a, b) else None
+        return None
+
     def compare(self, op, left, right):
         if isinstance(op, (ast.In, ast.NotIn)) and isinstance(right, tuple) and right[:1] == ("kwdict",):
             ok_, key_ = self._dkey(left)
             if ok_:
                 hit = any(k == key_ for k, _ in right[1])
+                return "T" if hit == isinstance(op, ast.In) else "F"
+        if isinstance(op, (ast.In, ast.NotIn)) and isinstance(right, tuple) and right[:1] == ("set",) and len(right) == 2:
+            hit = self._set_member(left, right[1])
+            if hit is not None:
                 return "T" if hit == isinstance(op, ast.In) else "F"
         if isinstance(op, (ast.In, ast.NotIn)) and isinstance(right, tuple) and right[:1] == ("table",):
             ok, k = self._py(left)
@@ -748,6 +801,27 @@ class EffectDomain(DefaultDomain):
                     out.append(exc(v, logged(tag or (v[1] if isinstance(v, tuple) and len(v) > 1 else "raised"))))
         return out
 
+    def _ctor_args(self, expr, fr, pos, kw):
+        """Keyword arguments of a constructor call moved to their positions, when the class's own __init__ names them."""
+        if not kw or any(k == "**" for k, _ in kw):
+            return pos, kw
+        mod = getattr(fr.func, "_module", None)
+        try:
+            ci = self.classes.resolve_expr(mod, expr) if mod is not None else None
+            owner, f = self.classes.resolve_method(ci, "__init__") if ci is not None else (None, None)
+        except Exception:
+            return pos, kw
+        if not isinstance(f, FUNC_TYPES) or f.args.vararg is not None or f.args.posonlyargs:
+            return pos, kw
+        names = [a.arg for a in f.args.args[1:]]
+        given = dict(kw)
+        out = list(pos)
+        for n_ in names[len(pos):]:
+            if n_ not in given:
+                break
+            out.append(given.pop(n_))
+        return tuple(out), tuple((k, v) for k, v in kw if k in given)
+
     # -- calls --------------------------------------------------------------------------
     def call(self, interp, call, st, fr):
         d = dotted(call.func) or ""
@@ -864,7 +938,7 @@ class EffectDomain(DefaultDomain):
                 return [val(("set", ("empty",)), st)]
             return [r if r.kind == "exc" else val(("set", ("copy", r.value)), r.state) for r in interp.eval(call.args[0], st, fr)]
         f_ = call.func
-        if isinstance(f_, ast.Attribute) and isinstance(f_.value, (ast.Name, ast.Attribute)) and f_.attr in ("update", "difference_update", "add", "discard", "intersection_update", "copy", "union", "difference") and len(call.args) <= 1:
+        if isinstance(f_, ast.Attribute) and isinstance(f_.value, (ast.Name, ast.Attribute)) and f_.attr in ("update", "difference_update", "add", "discard", "remove", "intersection_update", "copy", "union", "difference") and len(call.args) <= 1:
             key = interp._key_of(f_.value, fr, st)   # a local, or an attribute of self kept in the state
             cur = st.get(key, None) if key is not None else None
             if isinstance(cur, tuple) and cur[:1] == ("set",):
@@ -875,8 +949,14 @@ class EffectDomain(DefaultDomain):
                         continue
                     cur = r.state.get(key)
                     arg = r.value[0] if r.value else None
-                    op = {"update": "union", "union": "union", "difference_update": "minus", "difference": "minus", "add": "with", "discard": "without", "intersection_update": "meet"}.get(f_.attr)
-                    if f_.attr == "copy":
+                    op = {"update": "union", "union": "union", "difference_update": "minus", "difference": "minus", "add": "with", "discard": "without", "remove": "without", "intersection_update": "meet"}.get(f_.attr)
+                    if f_.attr == "remove":
+                        there = self._set_member(arg, cur[1]) if arg is not None else None
+                        if there is not True:
+                            out.append(exc(("exc", "KeyError"), r.state))
+                        if there is not False:
+                            out.append(val(NONE, r.state.set(key, ("set", (op, cur[1], arg)))))
+                    elif f_.attr == "copy":
                         out.append(val(("set", ("copy", cur)), r.state))
                     elif f_.attr in ("union", "difference"):
                         out.append(val(("set", (op, cur[1], arg)), r.state))
@@ -977,7 +1057,8 @@ class EffectDomain(DefaultDomain):
                 if r.kind == "exc":
                     out.append(r)
                     continue
-                obj = ("new", d.split(".")[-1], tuple(r.value[: len(pos)]), tuple((k.arg or "**", v) for k, v in zip(call.keywords, r.value[len(pos):])))
+                cpos, ckw = self._ctor_args(call.func, fr, tuple(r.value[: len(pos)]), tuple((k.arg or "**", v) for k, v in zip(call.keywords, r.value[len(pos):])))
+                obj = ("new", d.split(".")[-1], cpos, ckw)
                 s2 = r.state
                 if getattr(self, "unique_ctors", False):
                     # every construction yields a distinct object: number the allocations
@@ -1210,6 +1291,14 @@ class EffectDomain(DefaultDomain):
                         log = s2.get("ev.calls", ())
                         s2 = s2.set("ev.calls", log + (entry,)) if len(log) < self.log_cap else s2.set("ev.calls.overflow", 1)
                     return s2
+                answered = None
+                if self.oracle is not None and d not in self.results and d not in self.raises:
+                    args_ = (d, list(r.value[: len(pos)]), [(k.arg or "**", v) for k, v in zip(kws, r.value[len(pos):])])
+                    answered = self.oracle(*args_, r.state) if getattr(self, "oracle_state", False) else self.oracle(*args_)
+                if answered is not None:
+                    for kind_, v in answered:
+                        out.append(val(v, logged("ok")) if kind_ == "val" else exc(v, logged(v[1] if isinstance(v, tuple) and len(v) > 1 and isinstance(v[1], str) else "raised")))
+                    continue
                 for v in self.results.get(d, [TOP]):
                     out.append(val(v, logged("ok")))
                 for e in self.raises.get(d, []):
